@@ -13,16 +13,22 @@ MANIFEST = {
                  "region-disjointness predicates) judging every answer of the real code",
     "text": "Proved in Lean for all inputs/histories: _calc_mod equals hash % prime for every row of the prime table regenerated from "
             "arenahash.cpp and every 32-bit hash; arena safety (live regions aligned, in bounds, pairwise disjoint, reset returns all) over "
-            "all alloc/free/reset sequences; ArenaVector growth policy, allocator size facts and the non-allocating operations refine List "
-            "(partial); the word-level bit primitives equal the List Bool specification; String refines a byte list, stays null terminated, "
-            "append_uint parses back. The models are tied to the real classes by running both on the same seeded operation lines "
-            "(adversarial sizes/keys, several containers on one arena, soft/hard resets, static-buffer arenas) and the monitor judges "
-            "every answer of the implementation.",
-    "note": "Partial: ArenaVector operations that reallocate (reserve/resize/insert/concat) and the vector sequence theorem, ArenaBitSet "
-            "reallocating resize/append, ArenaTree/ArenaList/ArenaHash chains are modelled and checked by the monitor (BST order, red-black balance, link "
-            "symmetry, bucket reachability after every operation) are covered by correspondence + monitor only, their refinement is not proved for all histories; raw memory "
-            "safety is what ASan/UBSan/LSan see on the explored histories; String::_op_format (vsnprintf) is not modelled. Trusted: Lean "
-            "kernel, Spec/C18.lean as the meaning of the ADTs, gen_primes.py, harness/driver/diff, malloc returning fresh blocks.",
+            "all alloc/free/reset sequences; ArenaVector, ArenaBitSet and String refine the textbook list / bit list / byte string over "
+            "all operation sequences interleaved with an allocation oracle that may fail at any point (no write outside the allocation, "
+            "capacity >= size, failure leaves the container unchanged, null termination, append_uint parses back); ArenaHash refines a finite "
+            "map with every node reachable from bucket hash % bucket_count (insert/remove/get/rehash, any arena behaviour); ArenaPool is a "
+            "LIFO of released blocks; ArenaTree: get, insert (set refinement, BST order and red-black balance preserved, all insert "
+            "histories) and remove (set refinement and BST order for every single remove, both code paths); ArenaList: every operation and "
+            "both traversals against the textbook list; the word-level bit primitives equal the List Bool specification. The models are "
+            "tied to the real classes by running both on the same seeded operation lines (adversarial sizes/keys, several containers on "
+            "one arena, soft/hard resets, static-buffer arenas) and the monitor judges every answer of the implementation.",
+    "note": "Partial: that ArenaTree::remove preserves the red-black colour invariant is not proved, so the tree theorem for MIXED "
+            "insert/remove histories (tree_refines_set_partial) carries it as an explicit hypothesis; the ArenaList sequence theorem exists "
+            "only for prepend/pop_first (all single operations are proved); the hash map theorem assumes the get-before-insert protocol "
+            "(no duplicate keys); vector/bit-set theorems assume no single allocation of 4 GiB / 512 MiB succeeds (uint32 capacity "
+            "fields). These parts are covered by correspondence (exact shapes, chains, links) and by the monitor after every operation. Raw "
+            "memory safety is what ASan/UBSan/LSan see on the explored histories; String::_op_format (vsnprintf) is not modelled. Trusted: "
+            "Lean kernel, Spec/C18*.lean as the meaning of the ADTs, gen_primes.py, harness/driver/diff, malloc returning fresh blocks.",
 }
 MODS = ["AsmjitVerif.Props.C18"]
 U64 = (1 << 64) - 1
@@ -503,10 +509,10 @@ def run(res):
     res.assumptions += [
         "malloc returns fresh, 16-byte aligned, non-overlapping blocks and fails for requests above 2^40 bytes (ASan limit); requests between "
         "64 MiB and 2^40 bytes are not generated",
-        "ArenaTree / ArenaList / ArenaHash chains / ArenaPool: modelled and monitored (shape, order, balance, links, reachability after every "
-        "operation), refinement not proved for all histories",
+        "ArenaTree::remove keeping the red-black colour invariant and the ArenaList sequence theorem are not proved (monitored after every "
+        "operation: shape, order, balance, links); hash map theorem assumes keys are inserted only when absent",
         "String::_op_format/_op_vformat (vsnprintf) are not modelled",
-        "ArenaVector capacity theorem assumes no single allocation of 4 GiB or more succeeds (uint32 capacity truncation otherwise)",
+        "ArenaVector / ArenaBitSet theorems assume no single allocation of 4 GiB / 512 MiB or more succeeds (uint32 capacity truncation otherwise)",
         "raw memory safety (no overrun, no use after free, no leak) = ASan/UBSan/LSan on the explored histories + the models' bounds-checked buffers",
     ]
     broken = []
